@@ -85,7 +85,7 @@ ASSUMPTIONS = [
 ]
 TECHNIQUE = "reference-model runtime monitor (population x fraction x respondent-level proportion / std-err; fraction cascade table)"
 DESIGN_REF = "DESIGN.md 4 C17"
-WEIGHTS = ["none", "frac", "float"]
+WEIGHTS = ["none", "frac", "float", "scales", "tiny"]
 REQUIRED_REACH = ["fraction", "population_counts", "population_counts_moe", "linearity",
                   "diff_nan", "strand_population", "class:date_rows", "class:date_cols",
                   "class:no_date", "class:strand_date"] + [
